@@ -395,4 +395,31 @@ def rule_rates_source(ck):
     c11.rule_axes(ck)
 
 
-RULES = [rule_t, rule_binary_t, rule_w, rule_public_t, rule_public_binary, rule_public_w, rule_rates_source]
+def rule_totals_fresh(ck):
+    """N_A and N_B are the totals of the forecasts as they are *now*: event_count / sum are functions of the (scaled) data and of
+    nothing remembered from an earlier call"""
+    from ..core.expand import phi_alternatives
+    P = ck.prog
+    ck.clause('D3')
+    G = 'csep.core.forecasts.GriddedDataSet.'
+    for name in ('event_count', 'sum'):
+        f = P.func(G + name)
+        ex = Expander(P, f, inline_depth=2)
+        for r in returns(f):
+            o = ck.ob('C08-D3.total', f, r.value if r.value is not None else 'return', r)
+            if r.value is None:
+                o.fail('%s returns nothing' % name)
+                continue
+            bad = []
+            for alt in phi_alternatives(ex.expand(r.value)):
+                attrs = {n.attr for n in ast.walk(alt) if isinstance(n, ast.Attribute) and isinstance(n.value, ast.Name) and n.value.id == 'self'}
+                calls = {n.func.attr for n in ast.walk(alt) if isinstance(n, ast.Call) and isinstance(n.func, ast.Attribute)
+                         and isinstance(n.func.value, ast.Name) and n.func.value.id == 'self'}
+                if not attrs or not (attrs - calls) <= {'data', '_data', '_scale'}:
+                    bad.append(u(alt)[:60])
+            (o.fail('the forecast total can be `%s`: a value kept on the object instead of the sum of the data as scaled now; after '
+                    'scale() / scale_to_test_date() the W-test\'s null median (N_A - N_B)/N uses a stale total while the per-event rates '
+                    'follow the new scale' % bad[0]) if bad else o.ok('sum of the current data'))
+
+
+RULES = [rule_t, rule_binary_t, rule_w, rule_public_t, rule_public_binary, rule_public_w, rule_rates_source, rule_totals_fresh]
